@@ -1,4 +1,101 @@
+/-
+C01 — build(Config(f, …)) calls f with exactly the configured arguments.
+
+Model: `Model/ArgStore.lean` (`toArgsKwargs` = `transform_to_args_kwargs`, as repaired by the
+`fix:` commit for positional gaps) and `Model/Call.lean` (`pyCall`, `buildCall`, `direct`).
+Lemmas: `Lemmas/BuildArgs.lean`.
+-/
+import FiddleModel.Lemmas.BuildArgs
 import FiddleModel.Model.Call
+
 namespace Fiddle
-theorem C01_placeholder : True := trivial
+open Sig
+
+/-- `*args` presence flag and run, as `transform_to_args_kwargs` computes them. -/
+def varPresent (s : Sig) (d : Dict Val) : Bool :=
+  match s.vpStart with
+  | some i => d.contains (.idx i)
+  | none => false
+
+def varArgs (s : Sig) (d : Dict Val) : List Val :=
+  match s.vpStart with
+  | some st => varRun d d.length st
+  | none => []
+
+/-- **Positional arguments are aligned with their parameters.** Whenever building succeeds in
+    forming the call, the positional list is `front ++ var`: `front`, followed by the trailing
+    positional parameters that are not passed (all unset), is exactly what each
+    positional-mode parameter should receive (its own stored value, or its own default for a
+    slot that had to be filled); `var` is the contiguous `*args` run; and with a non-empty
+    `*args` no positional slot is left out. -/
+theorem C01_positional_aligned (s : Sig) (d : Dict Val) (wf : ViewWF s)
+    (pos : List Val) (kw : Dict Val) (h : s.toArgsKwargs d false false = .ok (pos, kw)) :
+    ∃ front sk', pos = front ++ varArgs s d ∧
+      front.map some ++ sk'.map dfltOpt = expectedSlots false (varPresent s d) d s 0 ∧
+      (varArgs s d ≠ [] → sk' = []) :=
+  toArgsKwargs_aligned s d false wf pos kw h _ rfl _ rfl
+
+/-- **Never bound to a different parameter**: the j-th positional value passed to the callable
+    is the value the j-th positional-mode parameter should receive. -/
+theorem C01_never_misbinds (s : Sig) (d : Dict Val) (wf : ViewWF s)
+    (pos : List Val) (kw : Dict Val) (h : s.toArgsKwargs d false false = .ok (pos, kw)) :
+    ∃ front, pos = front ++ varArgs s d ∧
+      ∀ j (hj : j < front.length),
+        (expectedSlots false (varPresent s d) d s 0)[j]? = some (some front[j]) := by
+  obtain ⟨front, sk', hp, he, _⟩ := C01_positional_aligned s d wf pos kw h
+  refine ⟨front, hp, ?_⟩
+  intro j hj
+  rw [← he, List.getElem?_append_left (by simpa using hj)]
+  simp [hj]
+
+/-- **A required slot is never skipped over**: if the call can be formed, a required unset
+    positional-mode parameter is not followed by any passed positional value — and with a
+    non-empty `*args` there is no such parameter at all. Contrapositive: otherwise
+    `transform_to_args_kwargs` raises. -/
+theorem C01_required_gap_raises (s : Sig) (d : Dict Val) (wf : ViewWF s)
+    (j : Nat) (hreq : (expectedSlots false (varPresent s d) d s 0)[j]? = some none)
+    (hlater : (∃ j', j < j' ∧ ∃ v, (expectedSlots false (varPresent s d) d s 0)[j']? = some (some v)
+        ∧ ∀ p, dfltOpt p ≠ some v) ∨ varArgs s d ≠ []) :
+    ∀ pos kw, s.toArgsKwargs d false false ≠ .ok (pos, kw) := by
+  intro pos kw h
+  obtain ⟨front, sk', hp, he, hv⟩ := C01_positional_aligned s d wf pos kw h
+  rw [← he] at hreq
+  -- the `none` slot lies in the skipped suffix
+  have hjf : front.length ≤ j := by
+    rcases Nat.lt_or_ge j front.length with hlt | hge
+    · have hlt' : j < (front.map some).length := by simpa using hlt
+      rw [List.getElem?_append_left hlt'] at hreq
+      simp at hreq
+    · exact hge
+  rcases hlater with ⟨j', hjj, v, hv', hnd⟩ | hvar
+  · rw [← he] at hv'
+    have hj' : (front.map some).length ≤ j' := by simp; omega
+    rw [List.getElem?_append_right hj'] at hv'
+    -- a skipped slot can only hold a default
+    rw [List.getElem?_map] at hv'
+    cases hsk : sk'[j' - (front.map some).length]? with
+    | none => rw [hsk] at hv'; cases hv'
+    | some p => rw [hsk] at hv'; exact hnd p (by simpa using hv')
+  · have := hv hvar
+    subst this
+    simp only [List.map_nil, List.append_nil] at hreq
+    rcases Nat.lt_or_ge j (front.map some).length with hlt | hge
+    · simp at hlt; omega
+    · rw [List.getElem?_eq_none hge] at hreq
+      cases hreq
+
+deriving instance DecidableEq for Except
+
+/-- Concrete witnesses (the inputs that failed before the repair): a skipped slot with a
+    default is filled with that default; a skipped required slot raises; `build` passes what the
+    reported arguments imply (`direct`). -/
+example : Sig.toArgsKwargs [⟨"a", .po, true⟩, ⟨"b", .po, true⟩] [(.idx 1, .v 5)] false false
+    = .ok ([.d "a", .v 5], []) := by decide
+
+example : Sig.toArgsKwargs [⟨"a", .po, false⟩, ⟨"b", .po, true⟩, ⟨"c", .pk, true⟩]
+    [(.idx 1, .v 9)] false false = .error .typeError := by decide
+
+example : buildCall [⟨"a", .po, true⟩, ⟨"b", .po, true⟩] { args := [(.idx 1, .v 5)] }
+    = direct [⟨"a", .po, true⟩, ⟨"b", .po, true⟩] [(.idx 1, .v 5)] := by decide
+
 end Fiddle
